@@ -69,23 +69,24 @@ func ruleT11(r *Run) {
 			return
 		}
 		ec := encCase{mask: m, val: v}
+		// roles, not names: the continuation counter is the variable that is ASSIGNED a constant,
+		// the unit counter the one that is decremented
 		for _, s := range cc.Body {
 			switch x := s.(type) {
 			case *ast.ReturnStmt:
 				ec.reject = true
 			case *ast.AssignStmt:
 				if len(x.Lhs) == 1 && len(x.Rhs) == 1 {
-					name := types.ExprString(x.Lhs[0])
 					k, ok := intConst(einfo, x.Rhs[0])
-					if ok && name == "c" && x.Tok == token.ASSIGN {
+					if ok && x.Tok == token.ASSIGN {
 						ec.cont = int(k)
 					}
-					if ok && name == "n" && x.Tok == token.SUB_ASSIGN {
+					if ok && x.Tok == token.SUB_ASSIGN {
 						ec.dec += int(k)
 					}
 				}
 			case *ast.IncDecStmt:
-				if types.ExprString(x.X) == "n" && x.Tok == token.DEC {
+				if x.Tok == token.DEC {
 					ec.dec++
 				}
 			}
@@ -137,10 +138,10 @@ func ruleT11(r *Run) {
 	}
 	decBy := map[int64]*decCase{}
 	var decDefault *decCase
-	unitParam := ""
+	unitParams := map[types.Object]bool{} // int parameters (the byte offset and the UTF-16 unit counter)
 	for _, pv := range paramsOf(dinfo, decFd.Type) {
-		if pv != nil && pv.Name() != "off" && pv.Type().String() == "int" {
-			unitParam = pv.Name() // the UTF-16 unit counter
+		if pv != nil && pv.Type().String() == "int" {
+			unitParams[pv] = true
 		}
 	}
 	for _, cs := range decSwitch.Body.List {
@@ -149,31 +150,28 @@ func ruleT11(r *Run) {
 		for _, s := range cc.Body {
 			switch x := s.(type) {
 			case *ast.IncDecStmt:
-				switch types.ExprString(x.X) {
-				case "off":
-					if x.Tok == token.INC {
-						dc.bytes++
-					}
-				case unitParam:
-					if x.Tok == token.DEC {
-						dc.units++
-					}
+				// roles, not names: the byte offset is what is incremented, the unit counter what is decremented
+				if x.Tok == token.INC {
+					dc.bytes++
+				}
+				if x.Tok == token.DEC {
+					dc.units++
 				}
 			case *ast.AssignStmt:
-				if len(x.Lhs) == 1 && len(x.Rhs) == 1 && types.ExprString(x.Lhs[0]) == "off" && x.Tok == token.ADD_ASSIGN {
+				if len(x.Lhs) == 1 && len(x.Rhs) == 1 && x.Tok == token.ADD_ASSIGN {
 					if k, ok := intConst(dinfo, x.Rhs[0]); ok {
 						dc.bytes += int(k)
 					}
 				}
 			case *ast.ReturnStmt:
-				if len(x.Results) == 3 && types.ExprString(x.Results[2]) == "false" {
+				if rejectingReturn(p, dinfo, x) {
 					dc.reject = true
 				}
 			case *ast.IfStmt:
 				// if <cond> { ...; return off, n, false }
 				rej := false
 				ast.Inspect(x.Body, func(m ast.Node) bool {
-					if ret, ok := m.(*ast.ReturnStmt); ok && len(ret.Results) == 3 && types.ExprString(ret.Results[2]) == "false" {
+					if ret, ok := m.(*ast.ReturnStmt); ok && rejectingReturn(p, dinfo, ret) {
 						rej = true
 					}
 					return true
@@ -205,7 +203,7 @@ func ruleT11(r *Run) {
 							dc.hasRej, dc.rejMask, dc.rejVal = true, m, v
 						}
 					}
-					if types.ExprString(be.X) == unitParam {
+					if o := identObj(dinfo, be.X); o != nil && unitParams[o] {
 						if k, ok := intConst(dinfo, be.Y); ok && ((be.Op == token.LSS && k == 2) || (be.Op == token.LEQ && k == 1)) {
 							dc.unitGuard = true
 						}
@@ -259,4 +257,36 @@ func ruleT11(r *Run) {
 			r.Check(dc.unitGuard, fmt.Sprintf("two-unit class %d takes its second unit only when it remains", k), dc.pos, "rejects when fewer than two units remain", "a 4-byte sequence decrements the unit counter twice without checking that two units remain: with a length prefix of 1 (or an odd remainder) the counter becomes -1, the fast path advances head beyond tail and the slow path calls make with a negative capacity (panic on a few bytes of input)")
 		}
 	}
+}
+
+// rejectingReturn: the return yields ok == false: its last result is the literal false, or it
+// returns the results of a repository helper all of whose returns end in the literal false.
+func rejectingReturn(p *Prog, info *types.Info, ret *ast.ReturnStmt) bool {
+	if n := len(ret.Results); n >= 1 {
+		if isBoolConst(ret.Results[n-1], false) {
+			return true
+		}
+		if n == 1 {
+			if call, ok := ast.Unparen(ret.Results[0]).(*ast.CallExpr); ok {
+				if d, pkg := p.calleeDecl(info, call); d != nil {
+					all, any := true, false
+					ast.Inspect(d.Body, func(m ast.Node) bool {
+						if _, ok := m.(*ast.FuncLit); ok {
+							return false
+						}
+						if r2, ok := m.(*ast.ReturnStmt); ok {
+							any = true
+							if k := len(r2.Results); k == 0 || !isBoolConst(r2.Results[k-1], false) {
+								all = false
+							}
+						}
+						return true
+					})
+					_ = pkg
+					return all && any
+				}
+			}
+		}
+	}
+	return false
 }
